@@ -2,5 +2,5 @@
 EXTENDS TLV8, Json
 \* set-words: the sequence of (tag, length class) of a container; the harness maps small lengths to the real boundaries
 EmitWord == Len(sets) = MaxSets => PrintT(<<"BEH", ToJson([k \in 1..Len(sets) |-> [tag |-> sets[k].tag, n |-> Len(sets[k].val)]])>>)
-NoAttack == IF ~(FragmentSize /\ RoundTrip /\ CutRule) THEN ~PrintT(<<"BEH", ToJson([k \in 1..Len(sets) |-> [tag |-> sets[k].tag, n |-> Len(sets[k].val)]])>>) ELSE TRUE
+NoAttack == IF ~(FragmentSize /\ RoundTrip /\ CutRule /\ EverySetIsAnItem) THEN ~PrintT(<<"BEH", ToJson([k \in 1..Len(sets) |-> [tag |-> sets[k].tag, n |-> Len(sets[k].val)]])>>) ELSE TRUE
 =======================================================================
